@@ -61,6 +61,16 @@ theorem diffAlong_succ {α : Type} (sub : α → α → α) (n s2 : Nat) (c : Na
   unfold diffAlong
   rw [idx3_mid hj hk, if_neg (by omega), idx3_succ, Nat.add_sub_cancel]
 
+/-- inside the box the cumulative sum reads the increments inside the box only -/
+theorem cumsum_congr {α : Type} [AddCommMonoid α] (s1 n s2 : Nat) (t t' : Nat → α)
+    (h : ∀ p, p < s1 * n * s2 → t p = t' p) {p : Nat} (hp : p < s1 * n * s2) :
+    cumsumLoop (· + ·) s1 n s2 t p = cumsumLoop (· + ·) s1 n s2 t' p := by
+  obtain ⟨i, j, k, hi, hj, hk, rfl⟩ := box_decomp hp
+  rw [cumsum_exact s1 n s2 _ hi hj hk, cumsum_exact s1 n s2 _ hi hj hk]
+  apply Finset.sum_congr rfl
+  intro l hl
+  exact h _ (idx3_lt hi (by have := mem_range.mp hl; omega) hk)
+
 /-- `L (L⁻¹ c) = c` on the box -/
 theorem cumsum_diffAlong {α : Type} [AddCommGroup α] (s1 n s2 : Nat) (c : Nat → α) {p : Nat}
     (hp : p < s1 * n * s2) :
